@@ -77,7 +77,7 @@ func (a *TMSI5GS) GetAMFSetID() (aMFSetID uint16) {
 // AMFSetID Row, sBit, len = [1, 2], 8 , 10
 func (a *TMSI5GS) SetAMFSetID(aMFSetID uint16) {
 	a.Octet[1] = uint8((aMFSetID)>>2) & 255
-	a.Octet[2] = a.Octet[2]&GetBitMask(6, 6) + uint8(aMFSetID&3)<<6
+	a.Octet[2] = a.Octet[2]&GetBitMask(6, 0) + uint8(aMFSetID&3)<<6
 }
 
 // TMSI5GS 9.11.3.4
